@@ -237,7 +237,11 @@ func (m *Machine) Explore(pkgPath, fnName string, solver *smt.Solver, o ExploreO
 		prefix := ex.pending[n]
 		ex.pending = ex.pending[:n]
 		ex.resetPath(prefix)
+		tPath := time.Now()
 		m.runPath(fn)
+		if d := time.Since(tPath); d > 5*time.Second && os.Getenv("GOSYM_SLOWPATHS") != "" {
+			fmt.Fprintf(os.Stderr, "SLOWPATH %.1fs instrs=%d trace=%s\n", d.Seconds(), ex.instrs, ex.traceString())
+		}
 		jrollback(base)
 		ex.Stats.Paths++
 		ex.Stats.Instrs += ex.instrs
@@ -331,4 +335,7 @@ func TermCount() int { return len(sctx.Terms) }
 
 // ResetTerms drops all terms (only legal between paths: the rolled-back heap
 // holds no symbolic values). The caller must start a fresh solver.
-func ResetTerms() { sctx = smt.NewCtx() }
+func ResetTerms() { f := sctx.FloatUF; sctx = smt.NewCtx(); sctx.FloatUF = f }
+
+// SetFloatUF selects the uninterpreted-function float encoding (before any term is built).
+func SetFloatUF(on bool) { sctx.FloatUF = on }
